@@ -11,6 +11,10 @@
 //!  "units":[{"k":"C"|"B","c":1..3,"s":start class [, "g":{integer-coded parameters, see gen_params}]}, ..],
 //!  "steps":["full","half",..]            demand classes, materialised from the published aggregates
 //!  "dts":[2,2,..]                        optional, half-seconds per step (default 2 = 1 s)
+//!  "engs":[true,false,..]                optional, engine_on per step (default true), handed to set_pwr_aux and
+//!                                        solve_energy_consumption as Some(eng). ConsistSimulation::solve_step always
+//!                                        passes Some(true), so only the API pass can command the engines off: a case
+//!                                        with an engine-off step has no walk pass.
 //!  "walk":bool                           optional, default false: second pass through ConsistSimulation::walk
 //!  "negpub":bool                         optional, default false: go on when a unit publishes a NEGATIVE traction
 //!                                        limit (battery unit whose discharge limit is below its aux load, i.e. at its
@@ -249,13 +253,19 @@ fn exec(desc: &Value, tr: &mut Tracer) -> anyhow::Result<()> {
         Some(a) => a.iter().map(|x| x.as_f64().unwrap() / 2.0).collect(),
         None => vec![1.0; steps.len()],
     };
+    let engs: Vec<bool> = match desc.get("engs").and_then(|x| x.as_array()) {
+        Some(a) => a.iter().map(|x| x.as_bool().unwrap_or(true)).collect(),
+        None => vec![true; steps.len()],
+    };
+    let all_on = engs.iter().all(|x| *x);
     let negpub = desc.get("negpub").and_then(|x| x.as_bool()).unwrap_or(false);
     let mut c = build::consist(&pars, pdct, None)?;
     let mut accepted: Vec<(f64, f64)> = vec![];
     // ---- pass 1: the public API, call by call (ConsistSimulation::solve_step + step)
     for (k, cls) in steps.iter().enumerate() {
         let dt = uc::S * dts[k];
-        c.set_pwr_aux(Some(true))?;
+        let eng = engs.get(k).copied().unwrap_or(true);
+        c.set_pwr_aux(Some(eng))?;
         if let Err(e) = c.set_cur_pwr_max_out(None, dt) {
             tr.emit(json!({"ev":"PublishErr","i":k+1,"msg":errtxt(&e)}));
             break;
@@ -266,7 +276,7 @@ fn exec(desc: &Value, tr: &mut Tracer) -> anyhow::Result<()> {
         }
         let req = materialise(cls, &c.state);
         let keep = c.clone();
-        let r = c.solve_energy_consumption(uc::W * req, dt, Some(true));
+        let r = c.solve_energy_consumption(uc::W * req, dt, Some(eng));
         let mut rec = match &r {
             Ok(()) => project(&c, None),
             Err(_) => {
@@ -282,6 +292,7 @@ fn exec(desc: &Value, tr: &mut Tracer) -> anyhow::Result<()> {
         o.insert("cls".into(), json!(cls));
         o.insert("dt2".into(), json!((dts[k] * 2.0) as i64));
         o.insert("acc".into(), json!(r.is_ok()));
+        o.insert("eng".into(), json!(eng));
         o.insert("req".into(), qi(req, QS));
         o.insert("sg".into(), json!(if req > 0.0 { 1 } else if req < 0.0 { -1 } else { 0 }));
         if let Err(e) = &r {
@@ -303,7 +314,7 @@ fn exec(desc: &Value, tr: &mut Tracer) -> anyhow::Result<()> {
         }
     }
     // ---- pass 2: the accepted requests as a PowerTrace through a real ConsistSimulation::walk
-    if desc.get("walk").and_then(|x| x.as_bool()).unwrap_or(false) && !accepted.is_empty() {
+    if all_on && desc.get("walk").and_then(|x| x.as_bool()).unwrap_or(false) && !accepted.is_empty() {
         let mut time = vec![0.0];
         let mut pwr = vec![0.0];
         for (req, dt) in &accepted {
@@ -397,9 +408,19 @@ fn gen(seed: u64, n: usize, tier: &str) -> Vec<Value> {
             steps.push(cls);
             dts.push(*r.pick(&[1i64, 2, 2, 4]));
         }
-        out.push(json!({"src":"gen","seed":seed,"k":k,"toy":false,
-            "pdct": if r.chance(1, 2) { "RESGreedy" } else { "Proportional" },
-            "units":units,"steps":steps,"dts":dts,"walk":true}));
+        let pdct = if r.chance(1, 2) { "RESGreedy" } else { "Proportional" };
+        // every fourth case: engines commanded off (engine_on = Some(false)) on most braking / coasting steps -
+        // dynamic braking does not need the engine; only a direct caller of the Consist API can do this
+        let offcase = k % 4 == 3;
+        let engs: Vec<bool> = steps.iter()
+            .map(|c| !(offcase && ["dyn", "dynm", "dynp", "dmid", "rgn", "rgnm", "rgnp", "rhalf", "zero"].contains(c) && r.chance(3, 4)))
+            .collect();
+        let mut d = json!({"src":"gen","seed":seed,"k":k,"toy":false,"pdct":pdct,
+            "units":units,"steps":steps,"dts":dts,"walk":true});
+        if engs.iter().any(|x| !*x) {
+            d["engs"] = json!(engs);
+        }
+        out.push(d);
     }
     out
 }
